@@ -14,7 +14,8 @@ from ..engine.values import SAtom, SReal, SBool, SInt
 from ..engine.lmfit_model import sym_parameters
 
 PNAMES = ["E", "contact_point"]
-PFIELDS = ("value", "vary", "expr", "min", "max")
+# everything of a parameter that can influence a fit (brute_step: grid of the "brute" method)
+PFIELDS = ("value", "vary", "expr", "min", "max", "brute_step")
 
 
 class Val:
